@@ -23,6 +23,7 @@ META = {
     "identity holds for all inputs; every touched account is a key of final and yields exactly one Balance with name-aligned figures; the replay runs over the "
     "three unfiltered tables in time order and stops strictly after the to-date; per-holder totals accumulate final balances by the balance's own holder; the net "
     "flow replayed per class equals the amount the lot matcher consumes for that class.",
+    "restated": 'every out-transaction and fee-bearing transfer is a taxable event (C03.a, c); the entry-set iterator cuts the reported transactions on the own calendar date like the replay (C10.a)',
     "not_decided": "numeric equality of decimal sums at run time; reconciliation when the to-date cuts inside a disposal's lot consumption.",
     "assumptions": ["dict semantics (unique keys, .get default)", "sorted() is stable and total on distinct timestamps"],
 }
